@@ -4,10 +4,12 @@ import json, os, sys
 here = os.path.dirname(os.path.abspath(__file__))
 sys.path.insert(0, here)
 from props import PROPS, CLAIMS
-from claims import NOT_APPLICABLE, ENGINES, HOOK_COMMITS
+from claims import NOT_APPLICABLE, ENGINES, HOOK_COMMITS, READY
 
 checks = []
 for pid in sorted(PROPS):
+    if pid not in READY:
+        continue
     c = CLAIMS[pid]
     checks.append({
         "property_id": pid,
@@ -32,7 +34,7 @@ m = {
     },
     "engines": ENGINES,
     "checks": checks,
-    "not_applicable": [{"property_id": p, "reason": r} for p, r in sorted(NOT_APPLICABLE.items()) if p not in PROPS],
+    "not_applicable": [{"property_id": p, "reason": r} for p, r in sorted(NOT_APPLICABLE.items()) if p not in READY],
     "notes": "All checks are property-based tests / fuzzers (pgregory.net/rapid, native go fuzz) with explicit oracles; see DESIGN.md.",
 }
 json.dump(m, open(os.path.join(here, "..", "MANIFEST.json"), "w"), indent=1)
